@@ -202,6 +202,11 @@ func init() {
 			if call, ok := n.(*ast.CallExpr); ok {
 				if f := p.Callee(call); f != nil && core.FuncFullName(f) == "time.Time.Equal" {
 					eqCond = p.Canon(call)
+					if se, ok := ast.Unparen(call.Fun).(*ast.SelectorExpr); ok && len(call.Args) == 1 {
+						// a captured variable that became a parameter of an extracted helper is
+						// traced back to the argument the handler passes
+						eqCond = p.Canon(se.X) + ".Equal(" + p.Canon(c.traceParam(call.Args[0])) + ")"
+					}
 				}
 			}
 			return true
@@ -281,7 +286,7 @@ func init() {
 		nts := 0
 		for _, st := range c.G.SitesOfKind("MAPINS:Memberlist.nodeTimers") {
 			nts++
-			c.Check("C06/invariant/timer-writers/"+st.Fn.Name, "only the suspect handler registers suspicion timers", st.Pos, st.Fn == s.fn, st.Fn.Name)
+			c.Check("C06/invariant/timer-writers/"+st.Fn.Name, "only the suspect handler registers suspicion timers", st.Pos, c.allRoots(st.Fn, func(r *core.Func) bool { return r == s.fn }), st.Fn.Name)
 		}
 		c.Floor("timer registrations", nts, 1)
 	})
